@@ -707,7 +707,8 @@ class State:
         self.memory.set_slice(start=loc, stop=stop, value=data)
 
     def ret(self, subst: dict = None) -> ByteVec:
-        loc: int = self.mloc(subst)
+        # note: no size check on the offset alone: a zero-size range does not touch memory (mslice checks the range)
+        loc: int = self.mloc(subst, check_size=False)
         size: int = int_of(self.popi(), "symbolic return data size", subst)
 
         return self.mslice(loc, size)
@@ -3460,7 +3461,7 @@ class SEVM:
                         raise WriteInStaticContext(ex.context_str())
 
                     num_topics: int = opcode - OP_LOG0
-                    loc: int = ex.mloc()
+                    loc: int = ex.mloc(check_size=False)  # mslice checks the range
                     size: int = ex.int_of(state.pop(), "symbolic LOG data size")
                     topics = list(state.pop() for _ in range(num_topics))
                     data = state.mslice(loc, size)
